@@ -280,11 +280,40 @@ pub proof fn filter_tag_numbers_rfc4511()
     ensures denotes(r, i, d_extensible(i@)), //# C08.extensible_item_is_the_ordered_choice_of_its_two_forms
 //@end
 
+//@lift name=eq::any_empty_step file=src/filter.rs block="|acc, (n, ve)|" as="fn any_empty_step(acc: bool, n: usize, ve: &Vec<u8>, v: &Vec<Vec<u8>>) -> (r: bool)"
+//@ spec
+    requires n < v@.len(), v@.len() <= usize::MAX,
+    ensures r == (acc || (ve@.len() == 0 && n + 1 != v@.len())), //# C08.a_piece_other_than_the_last_is_empty_step
+//@end
+impl EnumFold for Vec<Vec<u8>> {
+    open spec fn pieces(&self) -> Seq<Seq<u8>> { vv(self@) }
+    open spec fn same(&self, v: &Vec<Vec<u8>>) -> bool { *v == *self }
+    fn verif_enum_fold(&self, init: bool, v: &Vec<Vec<u8>>) -> (b: bool)
+    {
+        let mut acc = init;
+        let mut n: usize = 0;
+        while n < self.len()
+            invariant n <= self@.len(), *v == *self,
+                acc == (init || exists|j: int| 0 <= j < n && j < self@.len() - 1 && #[trigger] vv(self@)[j].len() == 0),
+            decreases self@.len() - n
+        {
+            let ghost before = acc;
+            acc = any_empty_step(acc, n, &self[n], v);
+            proof {
+                assert(vv(self@)[n as int] == self@[n as int]@);
+                if acc && !before { assert(vv(self@)[n as int].len() == 0 && n < self@.len() - 1); }
+            }
+            n += 1;
+        }
+        acc
+    }
+}
 //@lift name=eq file=src/filter.rs fn=eq
 //@ rules +R11
 //@ sub "fn eq(i: &[u8])" => "fn eq<'a>(i: &'a [u8])"
 //@ sub "IResult<&[u8], Tag>" => "IResult<&'a [u8], Tag>"
-//@ sub "v.iter().enumerate().fold(false, |acc, (n, ve)| {\n                acc || ve.is_empty() && n + 1 != v.len()\n            })" => "verif_any_empty_before_last(&v)"
+//@ arg ".fold(" => "false, &v"
+//@ sub ".iter().enumerate().fold(" => ".verif_enum_fold("
 //@ sub "mid_final.into_iter().enumerate()" => "verif_enumerate(mid_final).into_iter()"
 //@ sub "let mut inner = vec![];" => "let mut inner: Vec<Tag> = vec![];"
 //@ ret r
